@@ -106,6 +106,14 @@ def crash_violation(res, e, prop, payload):
     if e.timeout:
         res.inconclusive.append('timeout')
         res.sample = res.sample or None
+        try:
+            # kept for diagnosis only (a time-out is inconclusive, never a verdict)
+            tdir = os.path.join(WORK, 'timeouts')
+            os.makedirs(tdir, exist_ok=True)
+            with open(os.path.join(tdir, '%s.%s.json' % (prop, (payload or {}).get('case'))), 'w') as f:
+                json.dump(payload, f, indent=1, default=str)
+        except Exception:
+            pass
         return 'timeout'
     kind, frames = report_key(e.stderr)
     if kind is None:
